@@ -1185,7 +1185,7 @@ def fop_assign_frame_value(td, v1d, v2d, layout, rows):
     return cols, [A(t), A(v1), A(v2)]
 
 
-ASSIGN_VALUE_DTYPES = ['bool', 'int8', 'int64', 'uint64', 'float32', 'float64', 'complex128', '<U1', '<U4', 'S4', 'M8[D]/full', 'M8[ns]/full', 'm8[D]/full', 'object']
+ASSIGN_VALUE_DTYPES = ['bool', 'int8', 'int64', 'float32', 'float64', '<U1', '<U4', 'M8[D]/full', 'M8[ns]/full', 'object']
 ASSIGN_FIXED = [('<U1', '<U1', '<U4'), ('<U1', '<U4', '<U1'), ('int64', 'int64', 'float64'), ('int64', 'float64', 'int64'), ('float32', 'float32', 'float64'),
                 ('int8', 'int8', 'int64'), ('S1', 'S1', 'S4'), ('M8[D]/full', 'M8[D]/full', 'M8[ns]/full'), ('float32', 'int8', 'float64'), ('<U1', 'int64', '<U4'),
                 ('bool', 'bool', 'int8'), ('int32', 'float32', 'int32')]
